@@ -51,6 +51,11 @@ pub struct Conn {
     pub lines: Vec<String>,
     /// the server side has closed (read returned 0)
     pub eof_seen: bool,
+    /// the client does not read its socket (back-pressure scenarios): `drain` is a no-op
+    pub stalled: bool,
+    /// the connection task is waiting for something that is not one of its gated event
+    /// sources (a full socket, a lock): the default schedule leaves it alone
+    pub blocked: bool,
 }
 
 impl Conn {
@@ -68,6 +73,8 @@ impl Conn {
             raw: vec![],
             lines: vec![],
             eof_seen: false,
+            stalled: false,
+            blocked: false,
         }
     }
     pub fn is_live(&self) -> bool {
@@ -176,8 +183,13 @@ impl World {
     /// Open connection `i` (must be Unconnected or ended) and run it up to its
     /// first gate (or to completion if refused).
     pub fn connect(&mut self, i: usize) -> Result<(), MachineryError> {
+        self.connect_cap(i, 1 << 20)
+    }
+
+    /// `connect` with a socket buffer of `cap` bytes in each direction.
+    pub fn connect_cap(&mut self, i: usize, cap: usize) -> Result<(), MachineryError> {
         verif::select(self.ctl);
-        let (client, server) = tokio::io::duplex(1 << 20);
+        let (client, server) = tokio::io::duplex(cap);
         let fut = verif::run_conn(self.main.clone(), server, self.ip);
         let mut c = Conn::new();
         c.fut = Some(Box::pin(fut));
@@ -280,6 +292,122 @@ impl World {
             "conn {} stuck under directive {:?} (event-source model mismatch?)",
             i, d
         )))
+    }
+
+    /// `run_directive` for back-pressure scenarios: a connection that stays pending away
+    /// from its gate (a full socket, a lock somebody else holds) is marked `blocked` and
+    /// `Ok(true)` is returned instead of a machinery error.
+    pub fn run_directive_blocking(&mut self, i: usize, d: Directive) -> Result<bool, MachineryError> {
+        if !self.conns[i].is_live() {
+            return Ok(false);
+        }
+        verif::select(self.ctl);
+        if !verif::at_gate(i) {
+            return Err(MachineryError(format!("conn {} not at gate for {:?}", i, d)));
+        }
+        verif::direct(i, d);
+        // polls without any byte arriving at the client since the previous one
+        let mut idle = 0;
+        while idle < 64 {
+            match self.poll_conn(i) {
+                PollOut::Ready | PollOut::Panicked => {
+                    self.drain(i);
+                    self.spin();
+                    return Ok(false);
+                }
+                PollOut::Pending => {
+                    if verif::at_gate(i) {
+                        self.drain(i);
+                        self.spin();
+                        return Ok(false);
+                    }
+                }
+            }
+            let before = self.conns[i].raw.len();
+            self.drain(i);
+            if self.conns[i].raw.len() > before {
+                idle = 0;
+            } else {
+                idle += 1;
+            }
+        }
+        self.conns[i].blocked = true;
+        Ok(true)
+    }
+
+    /// Send one line from client `i` and settle; `Ok(true)` when the connection's task
+    /// ended up blocked away from its gate.
+    pub fn send_observe_block(&mut self, i: usize, line: &str) -> Result<bool, MachineryError> {
+        self.write_line(i, line);
+        if self.conns[i].blocked {
+            // still waiting since an earlier step: the line stays unread in the socket
+            return Ok(true);
+        }
+        let mut blocked = false;
+        while self.conns[i].avail > 0 && self.conns[i].is_live() && !blocked {
+            self.conns[i].avail -= 1;
+            blocked = self.run_directive_blocking(i, Directive::Socket)?;
+        }
+        self.settle_blocking()?;
+        Ok(blocked)
+    }
+
+    /// `settle` in which a connection may end up blocked instead of at its gate.
+    pub fn settle_blocking(&mut self) -> Result<(), MachineryError> {
+        for _round in 0..10_000 {
+            let mut progressed = false;
+            for i in 0..self.conns.len() {
+                loop {
+                    if !self.conns[i].is_live() || self.conns[i].blocked {
+                        break;
+                    }
+                    let r = self.ready_sources(i);
+                    match r.first() {
+                        Some(d) => {
+                            self.run_directive_blocking(i, *d)?;
+                            progressed = true;
+                        }
+                        None => break,
+                    }
+                }
+            }
+            if !progressed {
+                return Ok(());
+            }
+        }
+        Err(MachineryError("settle did not converge".into()))
+    }
+
+    /// The client of a stalled connection reads again: what was written is consumed and a
+    /// blocked task runs on. `Ok(true)` when the task got back to its gate (or ended).
+    pub fn resume(&mut self, i: usize) -> Result<bool, MachineryError> {
+        self.conns[i].stalled = false;
+        verif::select(self.ctl);
+        for _ in 0..100_000 {
+            self.drain(i);
+            if !self.conns[i].is_live() {
+                self.conns[i].blocked = false;
+                return Ok(true);
+            }
+            if verif::at_gate(i) {
+                self.conns[i].blocked = false;
+                self.spin();
+                self.settle_blocking()?;
+                return Ok(true);
+            }
+            match self.poll_conn(i) {
+                PollOut::Ready | PollOut::Panicked => {
+                    self.drain(i);
+                    self.conns[i].blocked = false;
+                    return Ok(true);
+                }
+                PollOut::Pending => {}
+            }
+        }
+        if std::env::var("VERIF_DEBUG_RESUME").is_ok() {
+            eprintln!("resume({}) failed: raw={} at_gate={} life={:?} avail={}", i, self.conns[i].raw.len(), verif::at_gate(i), self.conns[i].life, self.conns[i].avail);
+        }
+        Ok(false)
     }
 
     /// Let tasks the server spawned (its ping/pong timers) run without letting
@@ -412,6 +540,9 @@ impl World {
     /// Which non-socket event sources of `i` are ready (fresh).
     pub fn ready_sources(&mut self, i: usize) -> Vec<Directive> {
         let mut v = vec![];
+        if self.conns[i].blocked {
+            return v;
+        }
         if let Some(info) = self.info(i) {
             if info.queue_len > 0 {
                 v.push(Directive::Queue);
@@ -511,6 +642,9 @@ impl World {
     /// Read everything currently readable on the client side of `i`.
     pub fn drain(&mut self, i: usize) {
         let c = &mut self.conns[i];
+        if c.stalled {
+            return;
+        }
         let cl = match c.client.as_mut() {
             Some(cl) => cl,
             None => return,
